@@ -6,7 +6,7 @@ From RV Require Core.Defer.
 From RV Require Import Base.Str Base.PathLex Path.Clean Path.CleanSpec Path.Relative Path.Helpers Path.HelpersFacts Core.Iter File.MemFile Path.Expand Path.Abs Xdg.Dirs Chmod.Sym.
 From stdpp Require gmap.
 From RV Require Import Memfs.State Memfs.Ops Memfs.Step Memfs.Wf Memfs.WfB Memfs.Handles Macros.Asserts.
-From RV Require Memfs.Walk Memfs.WalkOps Memfs.WalkSpec.
+From RV Require Memfs.Walk Memfs.WalkOps Memfs.WalkSpec Memfs.Spec Memfs.Refine Memfs.RefineHistory.
 
 Definition api_components := components.
 Definition api_push := push.
@@ -143,6 +143,13 @@ Definition api_walk_vs_spec (e : list (list N * list N)) (m : mfs) (s : list N) 
              end
   | inr _ => None
   end.
+(* the reference tree filesystem (Memfs/Spec.v, Memfs/RefineHistory.v) run next to the mirror: the driver carries the reference's own tree
+   through every call the reference covers, compares value and tree with the mirror's (history_refines says they agree), and re-reads the
+   tree from the mirror's state only after a call the reference does not cover *)
+Definition api_ref_init : Spec.tree := Refine.abs mfs_init.
+Definition api_ref_step (e : list (list N * list N)) (t : Spec.tree) (o : op) := RefineHistory.spec_step (env_lookup e) t o.
+Definition api_ref_of (m : mfs) : Spec.tree := Refine.abs m.
+Definition api_tree_list (t : Spec.tree) := (Spec.t_cwd t, fin_maps.map_to_list (Spec.t_nodes t)).
 Definition api_mfs_entries (m : mfs) := fin_maps.map_to_list (m_ents m).
 Definition api_mfs_data (m : mfs) := fin_maps.map_to_list (m_data m).
 Definition api_files_list (e : entry) : option (list (list N)) :=
